@@ -5,6 +5,7 @@ import (
 	"encoding/json"
 	"fmt"
 	"io"
+	"runtime"
 	"strings"
 	"testing"
 
@@ -192,7 +193,13 @@ func c07Run(c c07Case) (sig string, err error) {
 		before := rd.pos
 		rd.maxReq = 0
 		var v ttlv.Value
+		// what the receiver sets aside for the announced message is part of "buffering": the bytes allocated while it
+		// decides are measured too (one goroutine, nothing else allocates meanwhile but the reader's bookkeeping)
+		var m0, m1 runtime.MemStats
+		runtime.ReadMemStats(&m0)
 		rerr := safely(func() error { return st.Recv(&v) })
+		runtime.ReadMemStats(&m1)
+		allocated := m1.TotalAlloc - m0.TotalAlloc
 		if rerr != nil && strings.HasPrefix(rerr.Error(), "panic:") {
 			return "recv-panics", fmt.Errorf("Recv panicked on a header announcing %d bytes (max %d) instead of rejecting it with an error: %w", c.Announce, c.Max, rerr)
 		}
@@ -200,6 +207,9 @@ func c07Run(c c07Case) (sig string, err error) {
 		if c.Max > 0 && total > int64(c.Max) {
 			if rerr == nil {
 				return "oversize-accepted", fmt.Errorf("header announcing %d bytes accepted with max %d", c.Announce, c.Max)
+			}
+			if allocated > uint64(c.Max)+256<<10 && allocated >= uint64(c.Announce)/2 {
+				return "oversize-buffered", fmt.Errorf("announced %d bytes with max %d: rejected (%v), but %d bytes were allocated while deciding - room for the announced amount was made before the limit was looked at", c.Announce, c.Max, rerr, allocated)
 			}
 			if rd.maxReq > c.Max || rd.pos-before > c.Max {
 				return "oversize-buffered", fmt.Errorf("announced %d: receiver asked for %d bytes at once / consumed %d with max %d", c.Announce, rd.maxReq, rd.pos-before, c.Max)
@@ -338,7 +348,7 @@ func drawC07(rt *rapid.T) (c07Case, bool, []string) {
 func TestC07Framing(t *testing.T) {
 	const name = "TestC07Framing"
 	rec := evid.New("C07", name, "sequences of 1..5 messages (generic trees, KMIP requests, sizes 8 B..320 KiB biased around the 512-byte initial buffer and the limit) x read plans "+
-		"(1-byte, fixed small, random chunk lists spanning boundaries, fully coalesced, last bytes delivered together with io.EOF) x truncation offsets x announced lengths around max in {64,4096,1MiB}; some messages received into a Go value that cannot hold them (the following ones must still arrive); oracle: each message equals the sent one when returned and still does after all later Recv calls, exact consumption, clean errors (no panic); "+
+		"(1-byte, fixed small, random chunk lists spanning boundaries, fully coalesced, last bytes delivered together with io.EOF) x truncation offsets x announced lengths around max in {64,4096,1MiB}; some messages received into a Go value that cannot hold them (the following ones must still arrive); oracle: each message equals the sent one when returned and still does after all later Recv calls, exact consumption, clean errors (no panic), an oversized announcement rejected without reading, requesting or allocating the announced amount; "+
 		"non-trivial = reads are split (not fully coalesced) or the case is a truncation / size-limit case; distinct by case JSON").Attach(t)
 	if rp := evid.LoadReplay(name); rp != nil {
 		var c c07Case
